@@ -452,6 +452,36 @@ def judge_shadow(job):
             if len(sizes) > 1:
                 out['viol'].append(('include-shadow|layout-depends-on-order', {'shadow': True, 'order': [list(o) for o in sizes.values()],
                                                                               'detail': 'encoded sizes by order: %r' % (sizes,)}))
+        # the same name defined twice in one file (isar lists both): each body may only name what stands above it
+        import re
+        dup = {'cfg_old': '<struct name="SCfg"><member name="id" type="u32"/></struct>',
+               'cfg_new': '<struct name="SCfg"><member name="id" type="u32"/><member name="ext" type="SExt"/></struct>',
+               'ext': '<struct name="SExt"><member name="x" type="u16"/></struct>',
+               'user': '<struct name="SUser"><member name="cfg" type="SCfg"/></struct>'}
+        for order in itertools.permutations(sorted(dup)):
+            res = T.compile_text('<x>%s</x>' % ''.join(dup[n] for n in order), outs=('python',), mode='isar')
+            out['runs'] += 1
+            art = {'shadow': True, 'order': list(order), 'detail': ''}
+            try:
+                if not res.ok:
+                    out['viol'].append(('duplicate-name|prophyc-fails|%s' % res.exc_type, dict(art, detail=str(res.exc)[:300])))
+                    continue
+                text = open(res.files['m.py']).read()
+                defined = set()
+                for block in re.split(r'\n(?=class )', text):
+                    m = re.match(r'class (\w+)\(', block)
+                    if not m:
+                        continue
+                    for used in re.findall(r"\('\w+', (\w+)\)", block):
+                        if used not in defined:
+                            out['viol'].append(('duplicate-name|dependency-after-dependent', dict(
+                                art, detail='%s names %s before its definition:\n%s' % (m.group(1), used, text[-700:]))))
+                    defined.add(m.group(1))
+                if text.count('class SCfg(') != 2 or text.count('class SExt(') != 1 or text.count('class SUser(') != 1:
+                    out['viol'].append(('duplicate-name|output-incomplete', dict(art, detail=text[-700:])))
+            finally:
+                if res.outdir:
+                    shutil.rmtree(res.outdir, ignore_errors=True)
     except Exception:       # noqa
         out['harness_error'] = traceback.format_exc()
     return out
@@ -520,7 +550,7 @@ def run(ctx):
                        'sack: every set of <= 3 (4) enums / structs / unions as a C++ header (plain, dependencies in a namespace, '
                        'every dependency used by two fields) in every declaration order C++ allows. Include shadowing: a file that includes '
                        'another and redefines a struct / constant of it, every order of its definitions: the local definition '
-                       'precedes its users and the layouts do not depend on the order.')
+                       'precedes its users and the layouts do not depend on the order; one name defined twice in one file, every order.')
 
 
 def replay(art):
